@@ -243,6 +243,17 @@ func TestResourceShutdown(t *testing.T) {
 			if s.stallAfter >= 0 {
 				continue // it is not receiving, its end is observed after its cancel below
 			}
+			if !s.backpressure {
+				// a lossy stream may merge a remove with a following re-add into a replace: the end is only certain when
+				// the item stays removed
+				if _, exists := col.Get(s.id); exists {
+					continue
+				}
+				// ... and an add merged with its remove cancels out: a subscriber that never saw the item has nothing to end on
+				if s.events.Load() == 0 {
+					continue
+				}
+			}
 			select {
 			case <-s.closedSeen:
 			case <-time.After(closeBound):
